@@ -44,6 +44,11 @@ impl Display for Core {
     }
 }
 
+/// A string literal that is not triple-quoted cannot span lines in Python: line breaks become escapes.
+fn single_line(string: &str) -> String {
+    string.replace('\r', "\\r").replace('\n', "\\n")
+}
+
 fn to_py(core: &Core, ind: usize) -> String {
     match core {
         Core::Import {
@@ -74,8 +79,8 @@ fn to_py(core: &Core, ind: usize) -> String {
         }
         Core::ExpressionType { expr, ty } => format!("{}: {}", to_py(expr, ind), to_py(ty, ind)),
         Core::DocStr { string } => format!("\"\"\"{string}\"\"\""),
-        Core::Str { string } => format!("\"{string}\""),
-        Core::FStr { string } => format!("f\"{string}\""),
+        Core::Str { string } => format!("\"{}\"", single_line(string)),
+        Core::FStr { string } => format!("f\"{}\"", single_line(string)),
         Core::Int { int } => int.clone(),
         Core::ENum { num, exp } => format!("({num} * 10 ** {exp})"),
         Core::Float { float } => float.clone(),
